@@ -658,16 +658,6 @@ def oracle(case, impl):
         return f"oracle could not parse case/output ({e}): {impl[:120]}"
 
 
-def finding_of(case, impl, why):
-    """F15b: Pool.reportSSHConnected dereferences the worker of an instance that Pool.sync has dropped while the
-    SSH handshake was in progress. Only this exact shape."""
-    if case == "rc 0" and impl == "panic runtime error: invalid memory address or nil pointer dereference":
-        return "F15b"
-    if case.startswith("e2e ") and impl == "e2e crash=reportSSHConnected-nil-worker":
-        return "F15b"
-    return None
-
-
 def nontrivial_key(case, impl):
     f = case.split(" ")
     if impl in ("bad-op", None) or impl.startswith(("panic", "CRASH")):
